@@ -421,7 +421,15 @@ func (spt *Tracker) recoverWithPinInfo(ctx context.Context, pi *api.PinInfo) (*a
 	switch pi.Status {
 	case api.TrackerStatusPinError, api.TrackerStatusUnexpectedlyUnpinned:
 		logger.Infof("Restarting pin operation for %s", pi.Cid)
-		err = spt.enqueue(ctx, api.PinCid(pi.Cid), optracker.OperationPin)
+		// Re-issue the pin as recorded in the shared state (mode,
+		// depth, origins...), not with default options.
+		pin := api.PinCid(pi.Cid)
+		if st, stErr := spt.getState(ctx); stErr == nil {
+			if statePin, getErr := st.Get(ctx, pi.Cid); getErr == nil {
+				pin = statePin
+			}
+		}
+		err = spt.enqueue(ctx, pin, optracker.OperationPin)
 	case api.TrackerStatusUnpinError:
 		logger.Infof("Restarting unpin operation for %s", pi.Cid)
 		err = spt.enqueue(ctx, api.PinCid(pi.Cid), optracker.OperationUnpin)
